@@ -254,7 +254,10 @@ class _ChangeComputer:
         else:
             collector = codeanalyze.ChangeCollector(self.source)
             last_end = -1
-            for match in self.matches:
+            # the finder reports the matches of a block before those inside its
+            # statements: in textual order an earlier match in a nested block
+            # is not mistaken for one overlapping a later match
+            for match in sorted(self.matches, key=lambda match: match.get_region()):
                 start, end = match.get_region()
                 if start < last_end:
                     if not self._is_expression():
